@@ -1475,7 +1475,13 @@ struct NoAssign { NoAssign(); NoAssign(const NoAssign&) = default; NoAssign& ope
 struct ThrowSwap { ThrowSwap(); ThrowSwap(ThrowSwap&&) noexcept; ThrowSwap& operator=(ThrowSwap&&) noexcept; friend void swap(ThrowSwap&, ThrowSwap&); };            // its own swap may throw
 struct QuietSwap { QuietSwap(); QuietSwap(QuietSwap&&) noexcept; QuietSwap& operator=(QuietSwap&&) noexcept; friend void swap(QuietSwap&, QuietSwap&) noexcept; };
 struct LoudMove { LoudMove(); LoudMove(LoudMove&&); LoudMove& operator=(LoudMove&&); friend void swap(LoudMove&, LoudMove&) noexcept; };                           // quiet swap, moves may throw
+struct Unrelated { };
+struct LoudCtorQuietAssign { LoudCtorQuietAssign(); LoudCtorQuietAssign(long); LoudCtorQuietAssign& operator=(long) noexcept; };   // converting from long: assignment quiet, construction may throw
+struct QuietCtorQuietAssign { QuietCtorQuietAssign(); QuietCtorQuietAssign(long) noexcept; QuietCtorQuietAssign& operator=(long) noexcept; };
+struct QuietCtorLoudAssign { QuietCtorLoudAssign(); QuietCtorLoudAssign(long) noexcept; QuietCtorLoudAssign& operator=(long); };
+struct NoAddressOf { int x; void operator&() const = delete; };                                                                       // unary & is not the address
 template <class P> using V = xtl::variant<P, int>;
+template <class P> using VU = xtl::variant<Unrelated, P>;
 template <class X> constexpr bool swap_is_noexcept() { return noexcept(std::declval<X&>().swap(std::declval<X&>())); }
 template <int> struct E { };
 template <class S> struct mk;
@@ -1508,6 +1514,14 @@ def rule_traits(rep, tier):
     # found by argument-dependent lookup, not std::swap (a specification that promises more than the body keeps turns a propagating exception into std::terminate)
     for P, want in (("ThrowSwap", "false"), ("QuietSwap", "true"), ("LoudMove", "false"), ("Triv", "true")):
         w.must_hold("swap_is_noexcept<V<%s>>() == %s" % (P, want), "C05.noexcept", "variant<%s, int>::swap" % P, "noexcept-specification agrees with the swap found by ADL and the moves", P)
+    # [variant.assign]: v = t emplaces when another alternative is held, so it is noexcept only if T is nothrow assignable AND nothrow constructible from the argument
+    for P, want in (("LoudCtorQuietAssign", "false"), ("QuietCtorQuietAssign", "true"), ("QuietCtorLoudAssign", "false")):
+        w.must_hold("noexcept(std::declval<VU<%s>&>() = 1L) == %s" % (P, want), "C05.noexcept", "variant<Unrelated, %s>::operator=(long)" % P,
+                    "noexcept-specification covers the assignment and the construction of the alternative", P)
+    # get_if hands out the address of the alternative itself (std::addressof), whatever the element type does with unary &
+    w.must_compile("inline const void* get_if_addr(xtl::variant<NoAddressOf, int>* v, const xtl::variant<NoAddressOf, int>* cv) { "
+                   "const void* a = xtl::get_if<0>(v); const void* b = xtl::get_if<NoAddressOf>(cv); return a ? a : b; }",
+                   "C05.guard", "get_if", "the result is the address of the alternative (addressof), not what the element's operator& returns", "element type with deleted operator&")
     for n in (255, 256):
         w.raw("using V%d = mk<std::make_integer_sequence<int, %d>>::type; constexpr V%d v%d(mpark::in_place_index_t<%d>{});" % (n, n, n, n, n - 1))
         w.must_hold("v%d.index() == %d && !v%d.valueless_by_exception()" % (n, n - 1, n), "C05.traits", "variant of %d alternatives" % n, "last alternative is distinct from valueless", "index %d" % (n - 1))
